@@ -78,7 +78,9 @@ pub fn tokenize(source: &str, file_id: &FileId) -> (Vec<Token>, Vec<Diagnostic>)
                             col + 1,
                         ),
                     ),
-                ))
+                ));
+                // The unmatched text still occupies columns on the line
+                col += lexer.slice().encode_utf16().count();
             }
         }
     }
